@@ -187,11 +187,12 @@ class StreamReaderWrapper(miniaudio.StreamableSource):
             ).result()
 
         to_read = self.buffer.size if num_bytes == -1 else num_bytes
-        to_read = min(to_read, BUFFER_SIZE - self.buffer.size)
+        # Never read more from the source than what fits in the buffer
+        from_source = min(to_read, self.buffer.remaining)
 
         self.buffer.add(
             asyncio.run_coroutine_threadsafe(
-                self.reader.read(to_read), self.loop
+                self.reader.read(from_source), self.loop
             ).result()
         )
 
